@@ -149,7 +149,7 @@ def cases(draw, lang):
         if same_arity:
             p = ('i', draw(st.sampled_from(same_arity)), p[2])
     if kind == 'unrelated':
-        t2 = draw(tg.types(u, R, depth=2, force_generic=True, star=False))
+        t2 = draw(tg.types(u, R, depth=2, force_generic=True, star=False, proj=(mode == 'same')))
         if t2 is not None and t2[0] == 'i':
             t = t2
     return u, t, p, mode, kind
